@@ -213,9 +213,16 @@ class MEIExporter:
                 for onset in unique_onsets:
                     # group by start time
                     notes = voice_notes[note_start_times == onset]
+                    # grace notes precede the note or chord they ornament
+                    for note in notes:
+                        if isinstance(note, spt.GraceNote):
+                            self._handle_note_or_rest(note, voice_el)
+                    notes = [
+                        note for note in notes if not isinstance(note, spt.GraceNote)
+                    ]
                     if len(notes) > 1:
                         self._handle_chord(notes, voice_el)
-                    else:
+                    elif len(notes) == 1:
                         self._handle_note_or_rest(notes[0], voice_el)
 
         self._handle_tuplets(measure_el, start=measure.start.t, end=measure.end.t)
